@@ -6,6 +6,7 @@ in every state every read probe for every key / gap of the universe.
 import itertools
 
 from .. import fam as F
+from .. import ops as O
 
 LEVEL = 'model_checking'
 RULE = ('states = distinct canonical structural dumps reachable from the empty container '
@@ -120,6 +121,13 @@ def alphabet(ctx, keys, grid, vals, mode, n):
             ops.append(('pop', g, 'D'))
         ops.append(('popitem',))
         ops.append(('clear',))
+        # refused single-key writes: TypeError, contents unchanged (also from the empty tree)
+        ops.append(('badkey', 'setitem', vals[0]))
+        ops.append(('badkey', 'update', vals[0]))
+        if O.bad_value(ctx.fam) is not None:
+            for k in (keys[0], keys[-1]) + tuple(g0):
+                ops.append(('badvalue', 'setitem', k))
+            ops.append(('badvalue', 'update', keys[len(keys) // 2]))
         pairs = [(k, vals[i % 2]) for i, k in enumerate(keys)]
         if mode == 'value':
             alt = [(k, vals[(i + 1) % 2]) for i, k in enumerate(keys)]
@@ -152,6 +160,8 @@ def alphabet(ctx, keys, grid, vals, mode, n):
             ops.append(('discard', g))
         ops.append(('pop',))
         ops.append(('clear',))
+        ops.append(('badkey', 'add'))
+        ops.append(('badkey', 'update'))
         if n <= 5:
             subs = [tuple(s) for r in range(n + 1) for s in itertools.combinations(keys, r)]
             for sub in subs:
